@@ -282,6 +282,7 @@ func (h *hist) Burst(spec burstSpec) {
 		if allFail {
 			r.Count("bursts_count_bound_checked", 1)
 			r.Count(fmt.Sprintf("burst_upstream_calls_%d", min(len(calls), 3)), 1)
+			r.Max("burst_upstream_calls_all_failing_max", int64(len(calls)))
 			bypass := len(calls) > 2
 			for _, c := range calls[min(2, len(calls)):] {
 				if !c.activeAtEntry {
